@@ -75,6 +75,34 @@ def build_coq(timeout=1500):
     return rc == 0, out, time.time() - t0
 
 
+def build_coq_target(target, timeout=1500):
+    """make <target> (a .vo of the development with everything it depends on)."""
+    t0 = time.time()
+    if newer([os.path.join(COQ, "_CoqProject")], os.path.join(COQ, "Makefile")):
+        sh("coq_makefile -f _CoqProject -o Makefile", cwd=COQ, check=True)
+    rc, out = sh("make -j%d %s 2>&1" % (NCPU, target), cwd=COQ, timeout=timeout)
+    return rc == 0, out, time.time() - t0
+
+
+def gen_facts():
+    """Regenerates coq/Gen/Facts.v from /repo's sources (tools/facts)."""
+    tool = os.path.join(VERIF, "tools", "facts")
+    if not os.path.isdir(tool):
+        return
+    exe = os.path.join(WORK, "facts.exe")
+    os.makedirs(WORK, exist_ok=True)
+    rc, out = sh("go build -o %s ." % exe, cwd=tool, env=GOENV, timeout=300)
+    if rc != 0:
+        raise InfraError("facts tool does not build: " + out[-1000:])
+    rc, out = sh([exe, REPO], timeout=120)
+    if rc != 0:
+        raise InfraError("facts tool failed: " + out[-1000:])
+    dst = os.path.join(COQ, "Gen", "Facts.v")
+    old = open(dst).read() if os.path.exists(dst) else None
+    if old != out:
+        open(dst, "w").write(out)
+
+
 def print_assumptions(prop_file):
     """Re-runs coqc on a Props file and returns its Print Assumptions output."""
     rc, out = sh("coqc -Q . GB %s" % prop_file, cwd=COQ, timeout=600)
